@@ -7,7 +7,7 @@
    A refinement object is viewed as its levels [l0; l1], a container as the list of these (lv_of, views). *)
 From Coq Require Import ZArith List Bool QArith Qcanon Lia.
 From SG Require Import Base.QcUtil Base.PyLib Base.PyNum Base.PyC06 Model.RefTree Model.DimWise Model.DimWiseCache
-  Gen.DimWiseGen Proofs.GenDimWiseEq.
+  Gen.DimWiseGen Proofs.GenDimWiseEq Proofs.GenDimWiseSubEq Gen.RefContainerGen Proofs.GenRefContEq.
 Import ListNotations.
 Local Open Scope Z_scope.
 
@@ -44,6 +44,28 @@ Theorem C06_gen_get_max_level_cached : forall c objs (d i : nat), (i < length ob
 Proof. exact gen_get_max_level_cached. Qed.
 Print Assumptions C06_gen_get_max_level_cached.
 
+(* generated get_subtraction_value - the rule that decides which points a component level sees - for the coarsening versions 2, 6,
+   7 and 8 = the model's get_subtraction_value, for every container content, position, dimension, level vector, lmax / lmin and
+   vector of maximum coarsenings (one per dimension); it calls the generated get_max_level (consistent max_level_dict) and the
+   generated modify_according_to_levelvec; the three `while True` loops are v68_loop / v7_loop fuel for fuel (declared fuel
+   S (sub_fuel): both sides run out of fuel together, and C03_stripes_defined shows they do not); the second component is the entry
+   the call writes to max_level_dict.  (phase 4) *)
+Theorem C06_gen_get_subtraction_value : forall o lmaxs lmins dict objs (i d dim : nat) mcs levelvec,
+  (i < length objs)%nat -> (d < length levelvec)%nat -> (d < length lmaxs)%nat -> (d < length lmins)%nat ->
+  length mcs = dim -> (d < dim)%nat ->
+  (forall v, py_c06_dict_get dict (Z.of_nat d) (Z.of_nat i) = Some v -> v = get_max_level objs i) ->
+  (o_version o = 2 \/ o_version o = 6 \/ o_version o = 7 \/ o_version o = 8) ->
+  SpatiallyAdaptiveSingleDimensions2_get_subtraction_value lmaxs lmins dict (o_version o) (Z.of_nat dim)
+    (lv_of (nth i objs dflt)) (views objs) (Z.of_nat i) mcs (Z.of_nat d) levelvec
+  = gsv_result objs d i (get_subtraction_value o dim (nth d lmins 0) (nth d lmaxs 0) mcs objs i d (nth d levelvec 0)).
+Proof. exact gen_gsv_eq. Qed.
+Print Assumptions C06_gen_get_subtraction_value.
+
+(* the branches of versions 4 and 5 are declared outside the model: the generated function raises there (nothing is assumed) *)
+Theorem C06_gen_get_subtraction_value_outside_model : forall lmaxs lmins dict v dimz ro objs i mcs d levelvec, v = 4 \/ v = 5 ->
+  SpatiallyAdaptiveSingleDimensions2_get_subtraction_value lmaxs lmins dict v dimz ro objs i mcs d levelvec = None.
+Proof. exact gen_gsv_outside. Qed.
+
 (* non-vacuity: the generated functions evaluated on a tree with a rotation-made shallow leaf (levels 0 3 2 1 3 2 3 0) *)
 Definition ex_objs : list ival :=
   map (fun p => mkIval 0 0 (fst p) (snd p) 0) [(0, 3); (3, 2); (2, 1); (1, 3); (3, 2); (2, 3); (3, 0)].
@@ -53,3 +75,31 @@ Example C06_gen_nonvacuous :
   SpatiallyAdaptiveSingleDimensions2_update_coarsening_values [2; 9] (views ex_objs) 0 = Some (1, [-1; -1; 0; -1; -1; -1; -1]) /\
   SpatiallyAdaptiveSingleDimensions2_modify_according_to_levelvec [6; 5] [3; 3] 1 0 3 [4; 3] = Some 1.
 Proof. vm_compute. repeat split; reflexivity. Qed.
+
+(* non-vacuity (phase 4): version 6 on the tree above, dimension 0 of 2, lmax = (6, 5), lmin = 3, maximum coarsenings (3, 2):
+   position 1 (a level-2 point whose subtree reaches level 3): the distributed coarsening is 2 on component level 5 *)
+Example C06_gen_subtraction_nonvacuous :
+  SpatiallyAdaptiveSingleDimensions2_get_subtraction_value [6; 5] [3; 3] [] 6 2 (lv_of (nth 1 ex_objs dflt)) (views ex_objs) 1 [3; 2] 0 [5; 3]
+  = Some (2, [[0; 1; 3]]) /\
+  SpatiallyAdaptiveSingleDimensions2_get_subtraction_value [6; 5] [3; 3] [] 8 2 (lv_of (nth 1 ex_objs dflt)) (views ex_objs) 1 [3; 2] 0 [6; 3]
+  = Some (2, [[0; 1; 3]]).
+Proof. vm_compute. split; reflexivity. Qed.
+
+(* generated RefinementContainer.get_next_object_for_refinement (sparseSpACE/RefinementContainer.py; the search step of the margin
+   selection loop of SpatiallyAdaptivBase.refine) = Model/RefTree.v cont_get_next: the same object index is found (or none) and the
+   same searchPosition is stored, for every benefit list, tolerance and cursor state with startNewObjects <= size.  The objects are
+   viewed as their benefits; the not-found index None is written -1 (front-end encoding).  (phase 4) *)
+Theorem C06_gen_get_next_object_for_refinement : forall (ben : list Qc) tol (c : cont),
+  length ben = length (c_objs c) -> (c_startNew c <= length (c_objs c))%nat ->
+  RefinementContainer_get_next_object_for_refinement (Z.of_nat (c_startNew c)) (Z.of_nat (c_search c)) ben tol
+  = Some (match fst (cont_get_next ben tol c) with
+          | Some i => (true, (Z.of_nat i, Z.of_nat (c_search (snd (cont_get_next ben tol c)))))
+          | None => (false, (-1, Z.of_nat (c_search (snd (cont_get_next ben tol c)))))
+          end).
+Proof. exact gen_get_next_eq. Qed.
+Print Assumptions C06_gen_get_next_object_for_refinement.
+
+Example C06_gen_get_next_nonvacuous :
+  RefinementContainer_get_next_object_for_refinement 4 1 [Q2Qc 1; Q2Qc (1 # 2); Q2Qc 1; Q2Qc 1; Q2Qc 1] (Q2Qc (9 # 10)) = Some (true, (2, 3)) /\
+  RefinementContainer_get_next_object_for_refinement 0 3 [Q2Qc 1; Q2Qc 0; Q2Qc 1; Q2Qc 0] (Q2Qc (9 # 10)) = Some (false, (-1, 3)).
+Proof. vm_compute. split; reflexivity. Qed.
